@@ -62,3 +62,8 @@ func MemberlistGoroutines() []string {
 	}
 	return out
 }
+
+// noProbe is a probe interval beyond any scenario horizon (the thorough tiers of the
+// hostile-input checks run for hours of virtual time). It must stay below ~290 h: memberlist
+// computes the suspicion timeout as mult * (scale*1000) * interval / 1000 in int64 nanoseconds.
+const noProbe = 100 * time.Hour
